@@ -276,9 +276,10 @@ Proof. apply filter_none. rewrite Forall_forall; auto. Qed.
 Lemma find_all_spec ord st v : ok_oracle ord ->
   Permutation (find_all ord (collection st v)) (spec_entries st v).
 Proof.
-  intro Hord. unfold collection, spec_entries. destruct (var_shape v) as [parts|f|ms|]; cbn [find_all].
+  intro Hord. unfold collection, spec_entries. destruct (var_shape v) as [parts|f|ms|cv|]; cbn [find_all].
   - apply (concat_find_spec st leaf_find_all (part_entries st) ord Hord).
     intros o p Ho. apply leaf_find_all_spec, Ho.
+  - apply Permutation_refl.
   - apply Permutation_refl.
   - apply Permutation_refl.
   - constructor.
@@ -301,7 +302,7 @@ Proof.
       rewrite filter_true. apply find_all_spec, Hord.
     + replace (is_empty (if args_family v then k else key_lower k)) with false
         by (destruct (args_family v); [|rewrite key_lower_nil_iff]; congruence).
-      unfold selectable. destruct (var_shape v) as [parts|f|ms|] eqn:Hs.
+      unfold selectable. destruct (var_shape v) as [parts|f|ms|cv|] eqn:Hs.
       * rewrite (collection_keyed st v parts Hs), (spec_entries_keyed st v parts Hs). cbn [andb].
         rewrite filter_flat_map.
         apply (concat_find_spec st _ _ ord Hord). intros o p Ho.
@@ -313,12 +314,14 @@ Proof.
       * unfold collection; rewrite Hs. cbn. rewrite filter_false. constructor.
       * unfold collection; rewrite Hs. cbn. rewrite filter_false. constructor.
       * unfold collection; rewrite Hs. cbn. rewrite filter_false. constructor.
+      * unfold collection; rewrite Hs. cbn. rewrite filter_false. constructor.
   - (* regex key *)
-    unfold selectable, eff_rx. destruct (var_shape v) as [parts|f|ms|] eqn:Hs.
+    unfold selectable, eff_rx. destruct (var_shape v) as [parts|f|ms|cv|] eqn:Hs.
     + rewrite (collection_keyed st v parts Hs), (spec_entries_keyed st v parts Hs). cbn [andb].
       rewrite filter_flat_map.
       apply (concat_find_spec st _ _ ord Hord). intros o pt Ho.
       apply leaf_find_regex_spec; [exact Ho | apply Hwf].
+    + unfold collection; rewrite Hs. cbn. rewrite filter_false. constructor.
     + unfold collection; rewrite Hs. cbn. rewrite filter_false. constructor.
     + unfold collection; rewrite Hs. cbn. rewrite filter_false. constructor.
     + unfold collection; rewrite Hs. cbn. rewrite filter_false. constructor.
@@ -855,6 +858,32 @@ Proof.
   destruct (r_id x =? id) eqn:E.
   - apply N.eqb_eq in E. split; [auto|]. intros [->|H]; [contradiction | exact H].
   - cbn. rewrite IH. tauto.
+Qed.
+
+(* ARGS_COMBINED_SIZE: the sum of |original name| + |value| over the arguments of the query string
+   and of the body AS SENT - whatever the names are (any bytes: invalid UTF-8, letters whose
+   lower-case form has another length) and however the maps group them *)
+Definition args_size (l : list entry) : N := fold_right N.add 0 (map entry_size l).
+
+Lemma sum_perm (a b : list N) : Permutation a b -> fold_right N.add 0 a = fold_right N.add 0 b.
+Proof. induction 1; cbn; try lia. Qed.
+
+Lemma maps_size_of_lists g p : maps_size [map_of_list g; map_of_list p] = args_size (g ++ p).
+Proof.
+  unfold maps_size, args_size. apply sum_perm, Permutation_map. cbn [flat_map]. rewrite app_nil_r.
+  apply Permutation_app; apply map_of_list_entries.
+Qed.
+
+Definition st_args (st : state) (g p : list entry) : Prop := s_get st = map_of_list g /\ s_post st = map_of_list p.
+
+Theorem size_of_request X ord st g p : st_args st g p -> rt_excs st VArgsCombinedSize = [] ->
+  get_field X ord st (with_rt st (compile_target X (mk_rtarget false VArgsCombinedSize SelAll [])))
+  = [(VArgsCombinedSize, [], itoa (args_size (g ++ p)))].
+Proof.
+  intros [Hg Hp] Hrt.
+  unfold get_field, with_rt, compile_target, field_matches, collection. cbn [c_count c_var c_keystr c_keyrx c_excs rt_var rt_sel rt_count rt_negs
+    args_family var_shape sel_rx sel_text key_lower lower_ascii map is_empty find_all get_map].
+  rewrite Hrt, Hg, Hp, maps_size_of_lists. reflexivity.
 Qed.
 
 (* ------------------------------------------------------------------------------------ *)
